@@ -49,6 +49,12 @@ const NON_PLAIN: [&str; 34] = [
 /// Date patterns a user may add (datepatterns.txt in the working or config directory): slash and
 /// dot dates in two orders each, so that some literals match only the later pattern of a pair.
 const USER_PATTERNS: &str = "monthnum'/'fullday'/'fullyear\nfullday'/'monthnum'/'fullyear\nfullday'.'monthnum'.'fullyear\nmonthnum'.'fullday'.'fullyear\n";
+/// Two small databases with the same numbers of units and quantities but other names and values:
+/// a query to one context must not change what the other one answers (state kept outside any
+/// Context - a thread-local memo, a static - would be shared by both).
+const DB_A: &str = "m !meter\ns !second\nkg !kilogram\nlength ? m\ntime ? s\nvelocity ? length / time\nmass ? kg\nft 0.3048 m\nmin 60 s\n";
+const DB_B: &str = "m !meter\ns !second\nkg !kilogram\nlength ? m\ntime ? s\nspeed ? length / time\nheft ? kg\nft 0.3 m\nmin 100 s\n";
+const TWO_DB_QUERIES: [&str; 10] = ["factorize m / s", "units for m", "m / s", "3 m -> ft", "ft", "factorize kg m / s", "velocity", "speed", "1 min", "search fo"];
 const DATE_LETTERS: [&str; 6] = ["#01/02/2020#", "#25/12/2020#", "#2020-01-05#", "#05.06.2020#", "#12.25.2020#", "3 m"];
 
 fn ctx_with_user_patterns() -> Context {
@@ -86,6 +92,7 @@ impl C15 {
         fams.add("all histories over 6 queries + flag on + flag off", vec![TOG_LETTERS.pow(d_tog)]);
         fams.add("every conversion / command spelling between a plain result and a use of ans", vec![NON_PLAIN.len() as u64, 2]);
         fams.add("date literals on a context with overlapping user date patterns: all histories of depth 3", vec![(DATE_LETTERS.len() as u64).pow(3)]);
+        fams.add("two small databases in one process: a query to one, then a query to the other", vec![TWO_DB_QUERIES.len() as u64, TWO_DB_QUERIES.len() as u64, 2]);
         C15 { fams, depth, db_order, pristine: Lazy::new(), pristine_dates: Lazy::new(), subject: Lazy::new(), subject_dates: Lazy::new(), reg_hash: Lazy::new() }
     }
 }
@@ -313,7 +320,7 @@ impl Space for C15 {
         Meta {
             id: "C15",
             level: "model_checking",
-            rule: format!("explicit-state exploration over a 16-query alphabet (one per reply kind and per way of touching ans: numbers, ans/_/ANS uses, an error, conversions, a definition lookup, units for, search, a time-valued result, a substance, a date, a unit list, an inline definition and a use of its name) with the feature flag on and off: every history up to depth {} is replayed through rink_core::eval on a real Context that has answered nothing before (each history runs in a forked copy of the worker process, on its copy of a database that the worker loaded and never queried), and one long-lived Context is fed a de Bruijn sequence B(16,{}) (every length-{} window from a different non-initial state). Plus every history of depth {} over 6 queries and the two settings changes <flag on>/<flag off> made between queries on one context (initially off). Plus `2 m ; X ; ans` for 34 spellings X of conversions and commands (every base/digits/notation modifier, `to`/`in`, unit lists, date and temperature conversions, units for / factorize / search / definition lookups). Plus all depth-3 histories over 5 date literals and a number on a context that has user date patterns with overlapping readings loaded (reference: never-queried copies of a context with the same patterns). Model = one register (ans) and the flag. At every transition: serialised reply == reply of a context that has never answered a query (a forked copy of the loaded database, discarded after the one reply, so that no state hidden behind `&Context` can reach a later step) with previous_result := register; ans == register; the context's clock lies between the start and the end of the call (each query is answered at the time it is asked); registry sizes/settings unchanged; full Debug dump of the registry compared at the end of histories. state = (register value, dimensionality, flag)", self.depth, self.db_order, self.db_order, self.tog_depth()),
+            rule: format!("explicit-state exploration over a 16-query alphabet (one per reply kind and per way of touching ans: numbers, ans/_/ANS uses, an error, conversions, a definition lookup, units for, search, a time-valued result, a substance, a date, a unit list, an inline definition and a use of its name) with the feature flag on and off: every history up to depth {} is replayed through rink_core::eval on a real Context that has answered nothing before (each history runs in a forked copy of the worker process, on its copy of a database that the worker loaded and never queried), and one long-lived Context is fed a de Bruijn sequence B(16,{}) (every length-{} window from a different non-initial state). Plus every history of depth {} over 6 queries and the two settings changes <flag on>/<flag off> made between queries on one context (initially off). Plus `2 m ; X ; ans` for 34 spellings X of conversions and commands (every base/digits/notation modifier, `to`/`in`, unit lists, date and temperature conversions, units for / factorize / search / definition lookups). Plus all depth-3 histories over 5 date literals and a number on a context that has user date patterns with overlapping readings loaded (reference: never-queried copies of a context with the same patterns). Plus two small databases (same numbers of units and quantities, other names and values) in one process: 10 x 10 ordered query pairs, one to each, in both orders - the second reply must be what that database answers in a process where nothing else was asked (state kept outside any Context would be shared). Model = one register (ans) and the flag. At every transition: serialised reply == reply of a context that has never answered a query (a forked copy of the loaded database, discarded after the one reply, so that no state hidden behind `&Context` can reach a later step) with previous_result := register; ans == register; the context's clock lies between the start and the end of the call (each query is answered at the time it is asked); registry sizes/settings unchanged; full Debug dump of the registry compared at the end of histories. state = (register value, dimensionality, flag)", self.depth, self.db_order, self.db_order, self.tog_depth()),
             assumptions: vec![
                 "the model register is updated from the never-queried context's reply, so the reference is exactly the statement's 'fresh context with the same previous answer'; the register crosses the process boundary as exact numerator/denominator text (or float bits) plus unit powers".into(),
                 "a forked copy of a loaded Context behaves like a newly loaded one: loading is deterministic (C12) and the copy shares no memory with later steps".into(),
@@ -331,6 +338,9 @@ impl Space for C15 {
         if f < 2 {
             let letters = decode(d[1], &vec![ALPHA.len() as u64; self.hist_depth(f)]);
             format!("flag {}: {}", f == 0, letters.iter().map(|i| ALPHA[*i as usize].0).collect::<Vec<_>>().join(" ; "))
+        } else if f == 6 {
+            let (first, second) = if d[2] == 0 { ("A", "B") } else { ("B", "A") };
+            format!("database {}: {} ; then database {}: {}", first, TWO_DB_QUERIES[d[0] as usize], second, TWO_DB_QUERIES[d[1] as usize])
         } else if f == 5 {
             let letters = decode(d[0], &vec![DATE_LETTERS.len() as u64; 3]);
             format!("user date patterns loaded: {}", letters.iter().map(|i| DATE_LETTERS[*i as usize]).collect::<Vec<_>>().join(" ; "))
@@ -373,7 +383,9 @@ impl Space for C15 {
         // copy that runs the case: the worker's contexts never answer a query.
         let (f, _) = self.fams.locate(idx);
         self.reg_hash.get(|| hash64(&format!("{:?}", fresh_ctx().registry)));
-        if f == 5 {
+        if f == 6 {
+            // small databases, loaded inside the forked copy
+        } else if f == 5 {
             self.pristine_dates.get(ctx_with_user_patterns);
             self.subject_dates.get(ctx_with_user_patterns);
         } else {
@@ -389,6 +401,47 @@ impl Space for C15 {
 impl C15 {
     fn run_here(&mut self, idx: u64) -> CaseOut {
         let (f, d) = self.fams.locate(idx);
+        if f == 6 {
+            let small = |text: &str| {
+                let mut c = Context::new();
+                c.use_humanize = false;
+                c.save_previous_result = true;
+                let _ = c.load_definitions(text);
+                c.set_time(fixed_now());
+                c
+            };
+            let (first_db, second_db) = if d[2] == 0 { (DB_A, DB_B) } else { (DB_B, DB_A) };
+            let (q1, q2) = (TWO_DB_QUERIES[d[0] as usize], TWO_DB_QUERIES[d[1] as usize]);
+            let ask = |c: &mut Context, q: &str| {
+                let r = rink_core::eval(c, q);
+                ser(&r).to_string()
+            };
+            // reference: the second database asked in a process in which nothing else was ever asked
+            let reference = engine::forked::in_fork(
+                || {
+                    let mut c = small(second_db);
+                    ask(&mut c, q2).into_bytes()
+                },
+                Duration::from_secs(60),
+            );
+            let reference = match reference {
+                Ok(b) => String::from_utf8_lossy(&b).to_string(),
+                Err(e) => panic!("the reference evaluation of `{}` ended abnormally: {}", q2, e),
+            };
+            let mut a = small(first_db);
+            let mut b = small(second_db);
+            let _ = ask(&mut a, q1);
+            let got = ask(&mut b, q2);
+            let mut out = CaseOut::ok("two databases").count("transitions", 2).count("histories", 1);
+            out.keys = vec![hash64(&("two-db", d[0], d[1], d[2]))];
+            if got != reference {
+                out = out.viol(
+                    "a query to one context changes the reply of another context",
+                    format!("after `{}` on the other database, `{}` answers {} but answers {} when asked first", q1, q2, engine::util::clip(&got, 300), engine::util::clip(&reference, 300)),
+                );
+            }
+            return out;
+        }
         let flag = if f < 2 { f == 0 } else if f == 3 { false } else if f == 4 { d[1] == 1 } else if f == 5 { true } else { d[0] == 1 };
         let hist_depth = if f < 2 { self.hist_depth(f) } else { 0 };
         let thorough = self.depth >= 4;
